@@ -494,6 +494,11 @@ def movedir(rep, mod):
              any((c or '').startswith('llvm.memcpy') for c in calls), where,
              None if 'memcpy' in calls else 'memmove no longer forwards the non-overlapping case to memcpy')
     # backward loop
+    if not any(len([i for i in L['header'].insts if i.op == 'phi' and i.ty.get('k') == 'ptr']) >= 2 for L in f.loops):
+        # no loop that walks two pointers: the copy is written in another form (index walk, helper).  Which bytes end up where,
+        # for every overlap, is decided by c08_content (R-COPY); this shape rule does not apply
+        rep.defer_broken('memmove: no loop walking a source and a destination pointer (R-MEMMOVE describes the pointer-walk form only)')
+        return
     ok_loop = False
     detail = 'no backward byte loop found'
     for L in f.loops:
